@@ -522,11 +522,11 @@ def tab_cli_get_arg(run, pof):
     run.check(has_remove, R, R + "|get_arg|remove", g.loc(), "an accepted parameter is removed from the leftover map", "accepted parameters are not removed from the map: the leftover check would reject valid parameters (or is not driven by consumption)")
     if vcall:
         vb, vt = vcall[0]
-        sw = T.switch_after(g, vt["target"], vt["dest"]["l"]) if vt["target"] is not None and not vt["dest"]["p"] else None
+        sw = T.bool_test(g, vt)
         ok = False
         if sw:
-            true_region = T.dominated_region(g, sw[0], vt["target"])
-            false_region = T.dominated_region(g, sw[1], vt["target"])
+            true_region = T.dominated_region(g, sw[0], sw[2])
+            false_region = T.dominated_region(g, sw[1], sw[2])
             oks = ok_return_blocks(g)
             # the Ok carrying the parsed value lies in the validator's true region only
             val_oks = [b for b in oks if b in true_region]
@@ -773,16 +773,28 @@ def tab_cli_color(run, pc):
 
 def tab_cli_defaults(run, pc, table):
     R = "TAB-cli"
-    f = pc
-    aggs = T.region_aggregates(f, f.reachable(), "OutputFormat")
-    # switches on a copy of `.printout`
+    # the choice is made in parse_command itself, or in a helper that is handed the group's `printout`
+    from rules_sym import deep as _deep
+    cands = [(pc, None)]
+    for bi, t in pc.calls():
+        h = run.prog.fn(t.get("resolved") or "") if t.get("resolved_local") else None
+        if h is None:
+            continue
+        for i, a in enumerate(t["args"]):
+            if op_place(a) is not None and _deep(pc, a, 4).endswith(".printout") and i + 1 <= h.arg_count:
+                cands.append((h, i + 1))
     done = False
-    for b in sorted(f.reachable()):
+    for f, pidx in cands:
+      aggs = T.region_aggregates(f, f.reachable(), "OutputFormat")
+      for b in sorted(f.reachable()):
         t = f.blocks[b]["term"]
         if t["k"] != "switch" or f.local_ty(op_local(t["discr"]) or 0) != "bool":
             continue
         o = f.origin_op(t["discr"])
-        if o[0] != "place" or not o[2] or not isinstance(o[2][-1], dict) or o[2][-1].get("name") != "printout":
+        if pidx is None:
+            if o[0] != "place" or not o[2] or not isinstance(o[2][-1], dict) or o[2][-1].get("name") != "printout":
+                continue
+        elif not (o[0] == "param" and o[1] == pidx):
             continue
         false_t = [tg for v, tg in t["targets"] if v == "0"]
         if not false_t:
@@ -805,7 +817,7 @@ def tab_cli_defaults(run, pc, table):
         run.check(okb, R, R + "|default-format|file", f.loc(fa[0]["span"]) if fa else f.loc(),
                   "a file group without -f defaults to `binary`", "default format when writing a file is not Binary")
     if not done:
-        run.violation(R, R + "|default-format|anchor", f.loc(), "mechanism not found: default format chosen on `printout`")
+        run.violation(R, R + "|default-format|anchor", pc.loc(), "mechanism not found: default format chosen on `printout`")
 
 
 def tab_cli_derive(run):
@@ -840,11 +852,11 @@ def tab_cli_derive(run):
                 continue
             if not any(value_depends_on(f, a, inp[0]) for a in t["args"]):
                 continue
-            sw2 = T.switch_after(f, t["target"], t["dest"]["l"])
+            sw2 = T.bool_test(f, t)
             if not sw2:
                 continue
-            treg = T.dominated_region(f, sw2[0], t["target"])
-            freg = T.dominated_region(f, sw2[1], t["target"])
+            treg = T.dominated_region(f, sw2[0], sw2[2])
+            freg = T.dominated_region(f, sw2[1], sw2[2])
             oks = ok_return_blocks(f)
             if report_error_in_region(f, treg) and err_return_in_region(f, treg) and oks and all(b in freg for b in oks):
                 guard = True
